@@ -22,6 +22,16 @@ CHECKS = {
              "contiguity of a layer's tests is C03",
         technique="Lean 4 theorems on hand-written model + differential correspondence with real order_by_bases",
         design="§5 C10"),
+    "C11": dict(
+        text="Lean theorems for every index stream, list and layer dict: Fisher-Yates result is a permutation, layers "
+             "keep their keys and only permute their own tests, the generated feature order puts Shuffle before "
+             "Filter/SubProcess/Listing so every mode sees the same order (pipeline theorem over Generated/Facts), "
+             "children use the parent's seed; tied to the real Shuffle.global_setup through the recorded index stream "
+             "and to the real spawn/get_options for the seed hand-over.",
+        note="RNG and float floor trusted (index stream recorded from the real code, bounds asserted); only CPython "
+             "3.12.1 available; end-to-end list/run/-j agreement is exercised by the world runs of C03",
+        technique="Lean 4 theorems on hand-written model + generated facts + differential correspondence",
+        design="§5 C11"),
 }
 
 NOT_APPLICABLE = {}
